@@ -840,12 +840,23 @@ class Engine:
         load = ast.copy_location(ast.BinOp(left=self._as_load(n.target), op=n.op, right=n.value), n)
         ast.fix_missing_locations(load)
         load._aug = True
-        for st1, r in self.eval(load, st):
-            if isinstance(r, Raised):
-                yield st1, Outcome("raise", r)
+        for st0, cur in self.eval(self._as_load(n.target), st):
+            if isinstance(cur, Raised):
+                yield st0, Outcome("raise", cur)
                 continue
-            for st2, e in self.assign_to(n.target, r, st1):
-                yield (st2, Outcome("raise", e)) if isinstance(e, Raised) else (st2, NORMAL)
+            for st1, r in self.eval(load, st):
+                if isinstance(r, Raised):
+                    yield st1, Outcome("raise", r)
+                    continue
+                if cur.kind in ("set", "list", "dict") and r.kind == cur.kind:
+                    # `x |= y`, `x += y` on a mutable container mutate the OBJECT in place: every alias sees it
+                    # (a local bound to a heap field writes through; a container parameter would alias the caller's object)
+                    for st2, e in self.write_back(n.target, cur, r, st1):
+                        yield (st2, Outcome("raise", e)) if isinstance(e, Raised) else (st2, NORMAL)
+                    continue
+                for st2, e in self.assign_to(n.target, r, st1):
+                    yield (st2, Outcome("raise", e)) if isinstance(e, Raised) else (st2, NORMAL)
+            return
 
     def _as_load(self, t):
         t2 = ast.parse(ast.unparse(t), mode="eval").body
